@@ -78,6 +78,7 @@ def parseView (j : Json) : Except String View := do
     raw := ← parseRaw (fldD j "raw" Json.null),
     schemaKeys := ← strsD j "schema_keys",
     idna := ← optOf chars (fldD j "idna" Json.null),
+    localOk := ← optOf bool (fldD j "local_ok" Json.null),
     urlParts := ← optStrs "url_parts",
     httpParts := http,
     canon := canon }
